@@ -139,6 +139,9 @@ func build(race bool) string {
 		out = filepath.Join(verifDir, ".build", "sim.race.test")
 		args = []string{"test", "-race", "-c", "-o", out}
 	}
+	if mf := os.Getenv("VERIF_MODFILE"); mf != "" {
+		args = append(args, "-modfile="+mf)
+	}
 	args = append(args, ".")
 	cmd := exec.Command("go1.26.8", args...)
 	cmd.Dir = filepath.Join(verifDir, "sim")
